@@ -73,8 +73,13 @@ def generate(rng, tier):
             other = dict(ds[0], s_true=[v + 0.25 for v in ds[0]["s_true"]])
             ds = ds + [twin, SL.finish_dataset(other, cfg["mat"])]
             k = len(ds)
+        if i % 7 == 5 or i % 8 == 2:
+            # the banks arrive through read_dataset (text files with the raw abscissae in full precision, default or named column order)
+            for j, d in enumerate(ds):
+                if all(v == v and abs(v) != float("inf") for v in d["y"]):
+                    d["via_file"] = ["default", "cols"][(i + j) % 2]
         cases.append({"cfg": cfg, "datasets": ds, "tier": tier,
-                      "desc": {"n_datasets": k, "any_xoffset": any(d["X"] is not None for d in ds),
+                      "desc": {"n_datasets": k, "any_xoffset": any(d["X"] is not None for d in ds), "through_read_dataset": any(d.get("via_file") for d in ds),
                                "global_window": cfg["Qmin"] is not None or cfg["Qmax"] is not None}})
     return cases
 
@@ -84,8 +89,24 @@ def merged(stog):
             np.asarray(stog.sq_master[stog.qsq_minus_one_title], float))
 
 
-def run_impl(pystog, case):
+def prepare(pystog, case):
     stog, snaps = SL.run_sequence(pystog, case["cfg"], case["datasets"])
+    if case.get("assign_points"):
+        # the stored points are assigned through the storage attributes (two overlapping banks sampled every 0.004: finer than the 0.01
+        # resolution add_dataset imposes); merge_data averages points with equal Q and keeps distinct Q values apart
+        qa = [round(0.300 + 0.004 * k, 3) for k in range(40)]
+        qb = [round(0.380 + 0.004 * k, 3) for k in range(40)]
+        qq = np.array(qa + qb)
+        ss = np.array([1.0 + 0.3 * np.sin(7.0 * v) for v in qa] + [1.05 + 0.3 * np.sin(7.0 * v) + 0.02 * (k % 3) for k, v in enumerate(qb)])
+        pts = np.stack((qq, ss, np.full_like(qq, 0.01)))
+        stog.sq_individuals = pts
+        stog.reciprocal_individuals = pts.copy()
+        snaps = snaps + [SL.snap(stog)]
+    return stog, snaps
+
+
+def run_impl(pystog, case):
+    stog, snaps = prepare(pystog, case)
     pre = snaps[-1]
     if len(pre["sq"][0]) == 0:
         return {"empty": True, "pre": pre}
